@@ -54,12 +54,20 @@ func (p *Pool) start() (*wproc, error) {
 	cmd.Env = append(os.Environ(), p.Env...)
 	w := &wproc{cmd: cmd, stderr: &bytes.Buffer{}}
 	cmd.Stderr = w.stderr
+	cmd.Stdout = w.stderr // the code under test may print; results travel on fd 3
 	w.in, _ = cmd.StdinPipe()
-	outp, _ := cmd.StdoutPipe()
-	if err := cmd.Start(); err != nil {
+	rp, wp, err := os.Pipe()
+	if err != nil {
 		return nil, err
 	}
-	w.rd = bufio.NewReaderSize(outp, 1<<20)
+	cmd.ExtraFiles = []*os.File{wp}
+	if err := cmd.Start(); err != nil {
+		rp.Close()
+		wp.Close()
+		return nil, err
+	}
+	wp.Close()
+	w.rd = bufio.NewReaderSize(rp, 1<<20)
 	return w, nil
 }
 
@@ -176,7 +184,7 @@ func (p *Pool) Map(jobs []json.RawMessage, handle func(i int, res json.RawMessag
 // Serve is the worker loop: one JSON job per line on stdin, one result per line on stdout.
 func Serve(work func(job json.RawMessage) json.RawMessage) {
 	rd := bufio.NewReaderSize(os.Stdin, 1<<20)
-	wr := bufio.NewWriterSize(os.Stdout, 1<<20)
+	wr := bufio.NewWriterSize(os.NewFile(3, "results"), 1<<20)
 	for {
 		line, err := rd.ReadBytes('\n')
 		if len(line) > 0 {
